@@ -179,6 +179,7 @@ func c20Deviated(sigs []c20Sig, i int) bool {
 //	                   feed, cooldown passed, validator entitled)
 func VerifC20Admission() {
 	nU := vs.Param("n_signals")
+	verifAssignedTimeHook, verifIsDeviatedHook = nil, nil
 	vs.AllowClock()
 	vs.AllowGoroutines(false)
 	vs.HashBitVectors()
@@ -358,7 +359,7 @@ func VerifC20Admission() {
 		if sg.hasOld {
 			oldTs = sg.old.Timestamp
 			assignedSec := calculateAssignedTime(val, sg.interval, sg.old.Timestamp, dpOffset, dpStart).Unix()
-			cool := nowSec >= sg.old.Timestamp+cooldown+TimeBuffer
+			cool := nowSec >= sg.old.Timestamp+cooldown+c20SpecBuffer
 			due := nowSec >= assignedSec
 			changed := int32(sg.old.SignalPriceStatus) != sg.bStatus
 			dev := c20Deviated(sigs, i)
@@ -368,11 +369,11 @@ func VerifC20Admission() {
 			anyDeviated = vs.Or(anyDeviated, vs.And(got, vs.And(!due, vs.And(!changed, dev))))
 			anyNotDue = vs.Or(anyNotDue, vs.And(!got, vs.And(statusOK, vs.And(cool, sg.bStatus != 2))))
 			anyCooling = vs.Or(anyCooling, vs.And(!got, vs.And(statusOK, vs.And(!cool, vs.Or(due, vs.Or(changed, dev))))))
-			anyEdgeOld = vs.Or(anyEdgeOld, vs.And(got, nowSec == sg.old.Timestamp+cooldown+TimeBuffer))
+			anyEdgeOld = vs.Or(anyEdgeOld, vs.And(got, nowSec == sg.old.Timestamp+cooldown+c20SpecBuffer))
 		} else {
 			anyFirst = vs.Or(anyFirst, got)
 		}
-		held := vs.And(sg.bStatus == 2, nowSec <= oldTs+sg.interval-FixedIntervalOffset)
+		held := vs.And(sg.bStatus == 2, nowSec <= oldTs+sg.interval-c20SpecUrgency)
 		anyHeld = vs.Or(anyHeld, vs.And(!got, vs.And(timing, held)))
 		want := vs.And(vs.And(statusOK, timing), !held)
 		vs.Assert("selected-iff-due", got == want)
@@ -410,11 +411,11 @@ func VerifC20Admission() {
 	inRange := vs.And(vs.And(vs.And(btSec >= 0, btSec < c20Clock), vs.And(btNsec >= 0, btNsec < 1000000000)),
 		vs.And(vs.And(height >= 3, height < c20Clock), vs.And(msgT >= -c20Clock, msgT < 2*c20Clock)))
 	withinDiscrepancy := vs.And(msgT-btSec <= p.AllowableBlockTimeDiscrepancy, btSec-msgT <= p.AllowableBlockTimeDiscrepancy)
-	vs.Assume(vs.And(btSec >= nowSec-TimeBuffer, vs.And(inRange, withinDiscrepancy)))
+	vs.Assume(vs.And(btSec >= nowSec-c20SpecBuffer, vs.And(inRange, withinDiscrepancy)))
 	ctx := env.Ctx.WithBlockTime(time.Unix(btSec, btNsec).UTC()).WithBlockHeight(height)
 	msg := feeds.NewMsgSubmitSignalPrices(val.String(), msgT, sub.SignalPrices)
 	vs.Assert("message-passes-validate-basic", msg.ValidateBasic() == nil)
 	_, err := feedskeeper.NewMsgServerImpl(k).SubmitSignalPrices(ctx, msg)
 	vs.Assert("chain-accepts-what-the-daemon-selected", err == nil)
-	vs.Reach("accepted-at-the-edge-of-the-time-buffer", vs.And(err == nil, vs.And(anyEdgeOld, btSec == nowSec-TimeBuffer)))
+	vs.Reach("accepted-at-the-edge-of-the-time-buffer", vs.And(err == nil, vs.And(anyEdgeOld, btSec == nowSec-c20SpecBuffer)))
 }
